@@ -17,7 +17,7 @@ ASSUMPTIONS = [
 T = {"quick": 120, "thorough": 900}
 OBLIGATIONS = [
     chx("hashutil_table", "C17_h", "h_hashutil", timeout=T,
-        bounds={"quick": {"n_max": 3, "seg_max": 2}, "thorough": {"n_max": 6, "seg_max": 12}},
+        bounds={"quick": {"n_max": 3, "seg_max": 2}, "thorough": {"n_max": 4, "seg_max": 4}},
         cases={"quick": [{"rows": list(range(0, 8)), "_label": "immutable"}, {"rows": list(range(8, 16)), "_label": "lease_dir"},
                          {"rows": list(range(16, 25)), "_label": "mutable"}],
                "thorough": [{"rows": [r], "_label": "row%d" % r} for r in range(25)]},
@@ -32,7 +32,7 @@ OBLIGATIONS = [
         desc="mutable.common.derive_mutable_keys: writekey = H(tag, DER(privkey))[:16], fingerprint = H(tag, DER(pubkey)), private key encrypted under the writekey; "
              "dirnode._encrypt_rw_uri: salt = H(tag, rw_uri)[:16], AES key = H(tag, salt, directory writekey)[:16], output = salt + ciphertext + 32-byte mac"),
     chx("immutable_chain", "C17_h", "h_immutable_chain", timeout=T,
-        bounds={"quick": {"n_max": 2, "seg_max": 1}, "thorough": {"n_max": 4, "seg_max": 6}},
+        bounds={"quick": {"n_max": 2, "seg_max": 1}, "thorough": {"n_max": 3, "seg_max": 3}},
         desc="CHKFileURI storage index; SecretHolder client secrets; Tahoe2ServerSelector._create_trackers per-server renewal/cancel secrets; Checker add-lease secrets; "
              "FileHandle convergent encryption key (tag + netstring(secret) + netstring('k,n,segsize'), contents) — all equal the specified chains"),
     chx("dir_child_keys", "C17_h", "h_dir_child_keys", timeout=T,
